@@ -22,6 +22,7 @@ func (h *vxC01) str(name string) string {
 
 func (h *vxC01) dir(name string, dotu bool) *Dir {
 	d := new(Dir)
+	d.Size = vxU16(name + ".size") // whatever an earlier decode left there: the encoder computes the size itself
 	d.Type = vxU16(name + ".type")
 	d.Dev = vxU32(name + ".dev")
 	d.Qid = vxSymQid(name + ".qid")
